@@ -358,14 +358,14 @@ static inline TextFamily make_LB2(std::shared_ptr<std::vector<BaseText>> base, u
 // LC: deep prefixes
 static inline TextFamily make_LC(unsigned tail_n, bool thorough) {
   TextFamily f;
-  std::vector<unsigned> ks = {14, 15, 16, 17, 18, 19, 20, 30, 31, 32, 33, 34, 62, 63, 64, 65, 66};
+  std::vector<unsigned> ks = {14, 15, 16, 17, 18, 19, 20, 30, 31, 32, 33, 34, 62, 63, 64, 65, 66, 126, 127, 128, 129, 130, 254, 255, 256, 257, 258, 1022, 1023, 1024, 1025, 1026};
   auto ksp = std::make_shared<std::vector<unsigned>>(ks);
   uint64_t tails = count_upto(10, tail_n);
   // prefix kinds: 0: [^k   1: [^k {   2: {"a": [^k   3: [^k {"a":   ; closers: 0 none, 1 matching closers appended
   f.meta.name = "LC_deep_tail_le" + std::to_string(tail_n);
   f.meta.count = (uint64_t)ks.size() * 4 * 2 * tails;
   f.meta.group = "LC";
-  f.meta.rule = "deep prefixes [^k, [^k{, {\"a\":[^k, [^k{\"a\": for k in {14..20,30..34,62..66} followed by every LA token string of length <= " +
+  f.meta.rule = "deep prefixes [^k, [^k{, {\"a\":[^k, [^k{\"a\": for k in {14..20,30..34,62..66,126..130,254..258,1022..1026} followed by every LA token string of length <= " +
                 std::to_string(tail_n) + ", with and without the matching closers appended (drives the parser node stack, capacity len/2+2 >= 16, to and past its limit)";
   f.meta.chunk = 2048;
   (void)thorough;
@@ -457,18 +457,19 @@ static inline TextFamily make_LW() {
   TextFamily f;
   std::vector<unsigned> ns;
   for (unsigned i = 0; i <= 40; i++) ns.push_back(i);
-  for (unsigned i : {63u, 64u, 65u, 66u, 127u, 128u, 129u, 130u, 255u, 256u, 257u}) ns.push_back(i);
+  for (unsigned i : {63u, 64u, 65u, 66u, 127u, 128u, 129u, 130u, 255u, 256u, 257u, 1023u, 1024u, 1025u, 4095u, 4096u, 4097u, 65535u, 65536u, 65537u}) ns.push_back(i);
   auto nsp = std::make_shared<std::vector<unsigned>>(ns);
   // shape: 0 array of 1 ; 1 array of "a" ; 2 object k_i:1 ; 3 array of [] ; 4 object k_i:{"k":[i]} ; 5 nested array-in-array wide
   f.meta.name = "LW_wide";
   f.meta.count = ns.size() * 6;
   f.meta.group = "LW";
-  f.meta.rule = "wide containers with n in {0..40,63..66,127..130,255..257} children in 6 shapes (exercises the node-copy tails)";
+  f.meta.rule = "wide containers with n in {0..40,63..66,127..130,255..257,1023..1025,4095..4097; arrays also 65535..65537} children in 6 shapes (exercises the node-copy tails and every count-field width)";
   f.meta.chunk = 8;
   f.gen = [nsp](uint64_t idx, std::string& out) {
     unsigned shape = (unsigned)(idx % 6);
     unsigned n = (*nsp)[idx / 6];
     out.clear();
+    if (n > 4097 && (shape == 2 || shape == 4)) return false;  // accessor comparison is quadratic for objects
     auto key = [](unsigned i) { return "\"k" + std::to_string(i) + "\""; };
     switch (shape) {
       case 0: case 1: case 3: {
@@ -504,6 +505,58 @@ static inline TextFamily make_LW() {
         break;
       }
     }
+    return true;
+  };
+  return f;
+}
+
+// LU: \u escapes of every code point near an encoding-length or surrogate boundary
+static inline TextFamily make_LU() {
+  TextFamily f;
+  auto cps = std::make_shared<std::vector<uint32_t>>();
+  auto range = [&](uint32_t a, uint32_t b) {
+    for (uint32_t c = a; c <= b; c++) cps->push_back(c);
+  };
+  range(0x0, 0x100);
+  range(0x7f0, 0x810);
+  range(0xff0, 0x1010);
+  range(0xd7f0, 0xd7ff);
+  range(0xe000, 0xe010);
+  range(0xfff0, 0xffff);
+  range(0x10000, 0x10010);
+  range(0x103f0, 0x10410);
+  range(0x1fff0, 0x20010);
+  range(0xffff0, 0x100010);
+  range(0x10fbf0, 0x10fc10);
+  range(0x10fff0, 0x10ffff);
+  static const unsigned offs[] = {0, 1, 26, 27, 28, 29, 30, 31, 32, 33};
+  f.meta.name = "LU_codepoint_boundaries";
+  f.meta.count = (uint64_t)cps->size() * 10 * 3 * 2;
+  f.meta.group = "LU";
+  f.meta.chunk = 1024;
+  f.meta.rule = "every code point within 16 of an encoding-length boundary (0x80, 0x800, 0x10000, 0x110000), of the surrogate range and of the planes' ends (" + std::to_string(cps->size()) +
+                " code points), written as \\uXXXX or as a surrogate pair in lower / upper case hex, after 0,1,26..33 plain bytes, as root string, array element and object key+value";
+  f.gen = [cps](uint64_t idx, std::string& out) {
+    unsigned upper = (unsigned)(idx % 2);
+    idx /= 2;
+    unsigned ctxk = (unsigned)(idx % 3);
+    idx /= 3;
+    unsigned off = offs[idx % 10];
+    uint32_t cp = (*cps)[idx / 10];
+    char buf[16];
+    std::string esc;
+    auto u = [&](unsigned v) {
+      snprintf(buf, sizeof buf, upper ? "\\u%04X" : "\\u%04x", v);
+      esc += buf;
+    };
+    if (cp < 0x10000)
+      u(cp);
+    else {
+      u(0xd800 + ((cp - 0x10000) >> 10));
+      u(0xdc00 + ((cp - 0x10000) & 0x3ff));
+    }
+    std::string lit = "\"" + plain(off) + esc + "\"";
+    out = ctxk == 0 ? lit : ctxk == 1 ? "[" + lit + ",1]" : "{" + lit + ":" + lit + "}";
     return true;
   };
   return f;
